@@ -34,6 +34,14 @@ EXPECTED_NOT_UNDERSTOOD = {
 }
 
 
+# behaviour-preserving refactorings (confirmed: identical observable output, baseline passes) that the checker cannot follow.  Required: exit 0 or 2, never 1.
+REFACTOR_NOT_UNDERSTOOD = {
+    "sa/selftest/never_alarm/C12/refactor_C.diff": "the host step lookup vectorised with np.full + one boolean-mask store per step: in-place numpy mask stores are not interpreted",
+    "sa/selftest/never_alarm/C14/refactor_D.diff": "the queue-length pipeline rewritten as notna filter + SeriesGroupBy.cumsum + stable sort by stream: the sweep rule reads one join / one sort / per-group loop",
+    "sa/selftest/never_alarm/C16/refactor_D.diff": "the three accumulator dicts replaced by one dict of dataclass objects filled from a generator function: generators are not interpreted and the result builder has another signature",
+}
+
+
 def _run_check(pid: str, repo_dir: str):
     env = dict(os.environ, HTA_REPO=repo_dir, VERIF_EVIDENCE_DIR=os.path.join(repo_dir, "_evidence"), VERIF_TIER="quick")
     p = subprocess.run(["/venv/bin/python", "-B", os.path.join(HERE, "check.py"), pid, "--tier", "quick"], capture_output=True, text=True, env=env, cwd=HERE)
@@ -68,11 +76,20 @@ def run(pid: str, chk) -> None:
     fire += sorted(glob.glob(os.path.join(HERE, "sa", "selftest", "mutants", pid, "*.diff")))
     names = list(silent.TRANSFORMS)
     equiv = sorted(glob.glob(os.path.join(HERE, "sa", "selftest", "equivalent", pid, "*.diff")))
-    res = {"must_fire": {}, "must_stay_silent": {}}
+    never = sorted(glob.glob(os.path.join(HERE, "sa", "selftest", "never_alarm", pid, "*.diff")))
+    res = {"must_fire": {}, "must_stay_silent": {}, "must_never_alarm": {}}
     with cf.ThreadPoolExecutor(int(os.environ.get("JOBS", "16"))) as ex:
         f1 = {ex.submit(_patched, pid, p): p for p in fire}
         f2 = {ex.submit(_silent, pid, n): n for n in names}
         f2.update({ex.submit(_patched, pid, p): "equivalent under the property's assumptions: " + os.path.relpath(p, HERE) for p in equiv})
+        f3 = {ex.submit(_patched, pid, p): os.path.relpath(p, HERE) for p in never}
+        for fu, n in f3.items():
+            rc, first = fu.result()
+            res["must_never_alarm"][n] = {"rc": rc, "first": first, "why_not_understood": REFACTOR_NOT_UNDERSTOOD.get(n, "")}
+            if rc == "not-applicable":
+                chk.note(f"self-test: {n} no longer applies (skipped)")
+            elif rc not in (0, 2):
+                chk.error(f"checker self-test: behaviour-preserving refactoring '{n}' gave exit {rc}: a refactoring the checker cannot follow may be 'not understood' (2) but never a violation {first}")
         for fu, p in f1.items():
             rc, first = fu.result()
             label = os.path.relpath(p, HERE)
@@ -96,7 +113,8 @@ def run(pid: str, chk) -> None:
             elif rc != 0:
                 chk.error(f"checker self-test: behaviour-preserving variant '{n}' gave exit {rc} (expected 0): the checker is unsound/brittle for this rewrite {first}")
     res["summary"] = {"must_fire": len(res["must_fire"]), "fired": sum(1 for v in res["must_fire"].values() if v["rc"] == 1), "not_understood_by_design": sum(1 for v in res["must_fire"].values() if v.get("expected") == 2),
-                      "must_stay_silent": len(res["must_stay_silent"]), "silent": sum(1 for v in res["must_stay_silent"].values() if v["rc"] == 0)}
+                      "must_stay_silent": len(res["must_stay_silent"]), "silent": sum(1 for v in res["must_stay_silent"].values() if v["rc"] == 0),
+                      "must_never_alarm": len(res["must_never_alarm"]), "never_alarmed": sum(1 for v in res["must_never_alarm"].values() if v["rc"] in (0, 2, "not-applicable"))}
     chk.selftest = res
-    good = res["summary"]["fired"] >= 1 and res["summary"]["silent"] == res["summary"]["must_stay_silent"] and all(v["rc"] in (1, "not-applicable") or (v.get("expected") == 2 and v["rc"] == 2) for v in res["must_fire"].values())
+    good = res["summary"]["fired"] >= 1 and res["summary"]["silent"] == res["summary"]["must_stay_silent"] and res["summary"]["never_alarmed"] == res["summary"]["must_never_alarm"] and all(v["rc"] in (1, "not-applicable") or (v.get("expected") == 2 and v["rc"] == 2) for v in res["must_fire"].values())
     chk.ob(f"{pid}.selftest", "two-sided self-test of this checker on scratch variants of the current tree", True if good else None, "sa/selftest", found=res["summary"], accepted="every must-fire variant exits 1, every behaviour-preserving variant exits 0", nontrivial=True)
